@@ -92,6 +92,29 @@ impl Salsa20Cipher {
         Ok(cipher)
     }
 
+    /// Test-only constructor (feature `verif-hooks`): like [`Self::new`], but the 64-bit
+    /// block counter starts at `counter` instead of 0.
+    ///
+    /// Used by the /verif conformance driver to reach the carry from the first into
+    /// the second counter word without generating 2^32 keystream blocks. Adds code
+    /// only; nothing else in the crate calls it.
+    #[cfg(feature = "verif-hooks")]
+    pub fn new_with_counter(
+        key: &[u8; 16],
+        iv: &[u8],
+        block_index: usize,
+        counter: u64,
+    ) -> Result<Self, CryptoError> {
+        let mut cipher = Self::new(key, iv, block_index)?;
+        #[allow(clippy::cast_possible_truncation)]
+        {
+            cipher.state[8] = counter as u32;
+            cipher.state[9] = (counter >> 32) as u32;
+        }
+        cipher.generate_keystream();
+        Ok(cipher)
+    }
+
     /// Generate next block of keystream
     fn generate_keystream(&mut self) {
         let mut working_state = self.state;
